@@ -1,6 +1,6 @@
 import os
 # repairs the model expects: "cachecopy" (sector cache holds private copies), "rollbackchecked" (StoreSector rollback is conditional)
-VOLUMES_FIXES = "cachecopy rollbackchecked syncserial resizelocked"
+VOLUMES_FIXES = "cachecopy rollbackchecked syncserial resizelocked removeused"
 PROP = dict(
         engine="volumes", harness="volumes", driver="drv_volumes",
         driver_args=(os.environ.get("VERIF_VOLUMES_FIXES") or VOLUMES_FIXES).split(),
